@@ -34,7 +34,11 @@ LEVEL_TEXT = ("Theorems (Coq, every n >= 1, every interval, every real z_i, pp_i
               "(C12_nest_exit_propagates). Integrands that throw are modelled as functions into res (option T) (gl_integrate_funX, gl_levelX, gl_nestX: an exception passes through every library frame up to the first handler, "
               "which may sit inside the integrand of an enclosing integration and substitutes a value); theorems: without exceptions this is the exception-free model (C12_throwing_refines), the overloads agree at every depth also when "
               "evaluations throw and handlers intervene (C12_nestX_overloads_agree), a call under a handler never lets an exception out and is unchanged when none arrives (C12_handler), a failed and handled inner integration "
-              "counts as its substitute value and nothing else (C12_handled_failure). On the implementation: nested integrations of depth 1..6 through every mix of the overloads (agreement of the three overloads at the top, exactness on "
+              "counts as its substitute value and nothing else (C12_handled_failure). The guards of the (values,rule) overload: whether a request is rejected is a function of the number of values and of the row lengths alone, "
+              "for an abstract number type without laws, hence for doubles with NaN/inf values verbatim (C12_exit_iff_shape, C12_guard_shape_only); the overload is a linear functional of the values on every well-formed table "
+              "of every length (C12_values_linear, over R). On the implementation: malformed requests (mismatched lengths, ragged rows) are combined with special values (NaN, +-inf, signed zeros, DBL_MAX, the subnormal quantum) among the "
+              "function values and with integrands that return them, plainly and in sessions, and matching requests with special values are checked against IEEE arithmetic; rules on intervals 2 .. 1e4 ulps wide at every magnitude 1e-300 .. 1e300 and both signs "
+              "(at and across binade borders) with every order the doubles of the interval still resolve (a-priori: Bruns' bounds on the zeros of P_n against 2 ulps) are checked for strict ordering, interior, symmetry, weights and exactness like all others. On the implementation (re-entrant use): nested integrations of depth 1..6 through every mix of the overloads (agreement of the three overloads at the top, exactness on "
               "polynomial cores against the exact tensor integral, size-guard probes made by the integrand itself) and sessions in one process (adjacent equal panels at offsets up to 1e12/n^2 widths, "
               "the same request with limits moved by 1e-16 .. 1e-6 relative, changing orders, reversed limits, repeats, requests abandoned by an exception of their integrand at any depth, "
               "size-guard probes after all of these, nested integrations whose innermost integrand throws on a half-line / band / alternating / quadrant pattern of its domain with handlers at any levels, each asked through "
@@ -47,7 +51,7 @@ TOL = (1e-13, 0.0)
 TRUSTED = ["std::cos is glibc's cos on both sides; M_PI is the literal 3.14159265358979323846",
            "S4 slack for nested polynomial integrals (a priori, _nest_reference): per level the moment bound of DERIVATION in the variable the polynomial is written in, combined as prod(B_j(1+r_j)) - prod(B_j), plus one rounding per operation of the core",
            "S4 slack for 'exact to rounding' (a priori, see checks/C12.py: W(n) = (8 ln n + 8)*1e-14 + 32 n 2^-53 relative to |b-a| max|g|, plus node-position terms, plus (n+2) subnormal quanta where results are subnormal)"]
-ASSUMPTIONS = ["rule requests are generated with |b-a| >= 1e-4*max(|a|,|b|) (kind far-narrow and adjacent panels in sessions: >= 1e-12 n^2 max(|a|,|b|), n <= 1000) (and >= 2e6 subnormal quanta, n <= 64 there) so that the n nodes are distinct doubles (node spacing ~ 6|b-a|/n^2, first node 1.45|b-a|/n^2 inside, against an ulp of max(|a|,|b|)); "
+ASSUMPTIONS = ["rule requests are generated with |b-a| >= 1e-4*max(|a|,|b|) (kind ulp-ladder: |b-a| = 2 .. 1e4 ulps of max(|a|,|b|) with orders n such that (|b-a|/2) min(1-cos(pi/(2n+1)), 2 sin(pi/(n+1/2)) sin(pi/(4n+2))) >= 2 ulps, n = 1 from 2 ulps on; kind far-narrow and adjacent panels in sessions: >= 1e-12 n^2 max(|a|,|b|), n <= 1000) (and >= 2e6 subnormal quanta, n <= 64 there) so that the n nodes are distinct doubles (node spacing ~ 6|b-a|/n^2, first node 1.45|b-a|/n^2 inside, against an ulp of max(|a|,|b|)); "
                "intervals whose end points are 1 .. 1e6 ulps or 1e-16 .. 1e-6 relative apart are driven through the three integration overloads and the sum of the weights only (agreement, exactness, sum w = b-a), at every magnitude from 0 and the subnormals to 1e300",
                "magnitudes: every decade ladder 1e-305 .. 1e300 in every position relative to the origin, subnormal lengths, and end points up to DBL_MAX; requests whose a+b or b-a is not a double are the region of K-C12-1",
                "convergence of the Newton iteration to distinct roots and positivity of the weights are not theorems; they are enumerated on the implementation (S4)",
@@ -143,6 +147,70 @@ def _interval(rng, kind, n=8):
 
 
 KINDS = ["unit", "zero-one", "generic", "straddle", "far", "tiny"]
+
+# ---- intervals a few ulps wide, far from the origin relative to their width
+ULP_WIDTHS = [2, 3, 4, 5, 7, 8, 10, 16, 20, 21, 22, 30, 40, 41, 50, 64, 80, 100, 128, 150, 200, 300, 500, 1000, 2000, 3000, 5000, 10000]
+
+
+def _dmin(n):
+    """a-priori lower bound (Bruns' inequalities (k-1/2) pi/(n+1/2) < theta_k < k pi/(n+1/2) for the zeros cos(theta_k) of P_n) on the
+    distance of the outermost node of the reference rule from the end point and on the distance between neighbouring nodes"""
+    if n == 1: return 1.0
+    return min(1.0 - math.cos(math.pi / (2 * n + 1)), 2.0 * math.sin(math.pi / (n + 0.5)) * math.sin(math.pi / (4 * n + 2)))
+
+
+def _resolvable(n, a, b):
+    """True when the n nodes on [a,b] are distinct doubles strictly inside for every correctly rounded evaluation of xm -/+ hw*z:
+    the midpoint and each node are rounded once (<= 1/2 ulp each), so exact offsets that differ by >= 2 ulps of max(|a|,|b|) and an
+    outermost node >= 2 ulps inside suffice; n = 1 needs only a double strictly between the end points on both sides of the midpoint"""
+    U = math.ulp(max(abs(a), abs(b))); w = abs(b - a) / U
+    if n == 1: return w >= 2
+    return 0.5 * w * _dmin(n) >= 2.0
+
+
+def _nmax_resolvable(a, b, cap=64):
+    n = 1
+    while n < cap and _resolvable(n + 1, a, b): n += 1
+    return n
+
+
+def _ulp_interval(rng):
+    """[x, x + k ulps] (or its mirror image) with k on the ladder 2 .. 1e4 and x of every magnitude from the subnormal border to 1e300,
+    including powers of two (the interval starts at or straddles a binade border) and the usual round numbers"""
+    r = rng.random()
+    if r < 0.25: x = rng.choice([1.0, 2.0, 0.5, 0.1, 0.75, 1e-3, 3.0, 1.0 / 3.0, 7.0, 10.0, 100.0, 1e3, 1e6, 1e-8, 1.5, 1.9999999999999998])
+    elif r < 0.4: x = math.ldexp(1.0, rng.randint(-1000, 1000)) * rng.choice([1.0, 1.0, 1.5, 1.75])
+    else: x = 10.0 ** rng.uniform(-300, 300)
+    k = rng.choice(ULP_WIDTHS) if rng.random() < 0.7 else int(10 ** rng.uniform(0.3, 4))
+    if rng.random() < 0.25 and x > 1e-300: x = _ulps(x, -rng.randint(0, k))      # straddles x (a binade border when x is a power of two)
+    y = _ulps(x, k)
+    return (x, y) if rng.random() < 0.5 else (-y, -x)
+
+
+def _ulp_rule_case(rng):
+    a, b = _ulp_interval(rng)
+    nm = _nmax_resolvable(a, b)
+    n = rng.choice([1, 2, 3, 4, 5, nm, nm, max(1, nm - 1), rng.randint(1, nm)])
+    n = min(n, nm)
+    tags = ["rule", "ulp-ladder", "odd" if n % 2 else "even", "n<=40" if n <= 40 else "n<=512"]
+    M = max(abs(a), abs(b)); tol = (1e-13, 1e-15 * M)
+    r = rng.random()
+    if r < 0.3: return Case(f"rule {n} {hx(b)} {hx(a)}", tags + ["reversed"], tol=tol)
+    if r < 0.55: return Case(f"pair {n} {hx(a)} {hx(b)}", tags + ["pair"], tol=tol)
+    return Case(f"rule {n} {hx(a)} {hx(b)}", tags, tol=tol)
+
+
+# ---- function values that are special numbers
+SPECIALS = [math.nan, math.nan, math.inf, -math.inf, 0.0, -0.0, 1e300, -1e300, 5e-324, DBL_MAX, -DBL_MAX, 2.2250738585072014e-308]
+
+
+def _vals(rng, k, special=None):
+    """k function values; special: some of them (one, two or all) are NaN, +-inf, signed zeros or at the ends of the range"""
+    vals = [rng.choice([1.0, rng.uniform(-2, 2)]) for _ in range(k)]
+    if special is None: special = rng.random() < 0.4
+    if special and k:
+        for i in rng.sample(range(k), min(k, rng.choice([1, 1, 2, k]))): vals[i] = rng.choice(SPECIALS)
+    return vals
 
 
 def _unit_exp(a, b):
@@ -404,7 +472,7 @@ def _random_request(rng, budget=400, maxdepth=4):
         n = rng.choice(SESS_NS); a, b = _mod_interval(rng); return ("R", n, a, b)
     if r < 0.35:
         n = rng.choice([1, 2, 3, 4, 5, 8, 9, 16]); a, b = _mod_interval(rng)
-        return ("V", n, a, b, [rng.choice([1.0, rng.uniform(-2, 2)]) for _ in range(n)])
+        return ("V", n, a, b, _vals(rng, n, special=rng.random() < 0.25))
     d = rng.randint(1, maxdepth)
     if rng.random() < 0.25:       # integrands that throw on part of their domain, handlers inside enclosing integrands
         levs, core = _throwing_nest(rng, max(d, 2), budget)
@@ -466,7 +534,7 @@ def _session(rng):
             n = rng.choice([1, 2, 3, 4, 5, 8, 9, 16, 33]); a, b = _mod_interval(rng)
             k = n if g == "match" else rng.choice([n - 1, n + 1, 0, 2 * n, rng.randint(0, 40)])
             if g != "match" and k == n: k = n + 1
-            reqs.append(("V", n, a, b, [1.0] * k))
+            reqs.append(("V", n, a, b, [1.0] * k if rng.random() < 0.5 else _vals(rng, k, special=True)))
         else:
             d = rng.randint(1, 4); levs = _levels(rng, d, 300)
             reqs.append(("N", levs, _core_tok(rng, levs, g)))
@@ -717,6 +785,9 @@ def generate(rng, tier):
         if n <= 64 or rng.random() < 0.1:
             cs.append(Case(f"rule_default {n}", ("rule_default", "odd" if n % 2 else "even"), tol=(1e-13, 1e-15)))
     cs.append(Case("rule 0 -0x1p+0 0x1p+0", ("rule", "n=0")))
+    # ---- intervals 2 .. 1e4 ulps wide at every magnitude, every order the doubles of the interval can still resolve
+    for _ in range(2500 if big else 260):
+        cs.append(_ulp_rule_case(rng))
     # ---- the three overloads on the same request
     for _ in range(1500 if big else 250):
         n = rng.choice(INT_NS + [rng.randint(1, 200)])
@@ -756,7 +827,7 @@ def generate(rng, tier):
     for _ in range(600 if big else 120):
         n = rng.choice([1, 2, 3, 4, 5, 8, 9, 16, 33])
         k = rng.choice([n, n, n - 1, n + 1, 0, 2 * n, rng.randint(0, 40)])
-        vals = [rng.choice([1.0, rng.uniform(-2, 2)]) for _ in range(k)]
+        vals = _vals(rng, k)
         if rng.random() < 0.5:
             a, b = _interval(rng, rng.choice(["unit", "generic"]))
             cs.append(Case(f"values {n} {hx(a)} {hx(b)} {flist(vals)}", ("values", "match" if k == n else "mismatch"), tol=(1e-12, 1e-13 * abs(b - a) * 2)))
@@ -770,7 +841,7 @@ def generate(rng, tier):
             if rng.random() < 0.6:
                 cs.append(Case(f"values_rows {flist(vals)} {tab}", ("values_rows", tag), tol=(1e-12, 1e-13 * n)))
             else:
-                cs.append(Case(f"fun_rows {tab} {rng.choice(['x', '* x x', 'cos x', 'c 0x1p+0'])}", ("fun_rows", "badrow" if bad else "wellformed"), tol=(1e-12, 1e-13 * n)))
+                cs.append(Case(f"fun_rows {tab} {rng.choice(['x', '* x x', 'cos x', 'c 0x1p+0', 'log x', 'c nan', 'c inf', '/ c 0x1p+0 x'])}", ("fun_rows", "badrow" if bad else "wellformed"), tol=(1e-12, 1e-13 * n)))
     # ---- unit values on a computed rule: sum of the weights = b-a at every magnitude and for nearly coinciding end points
     for _ in range(900 if big else 150):
         n = rng.choice(INT_NS + [rng.randint(1, 100)])
@@ -942,7 +1013,11 @@ def _rule_predicates_u(tag, n, a, b, xs, ws, full=True, q=0.0):
                 out.append((f"{tag}:exact-monomial", f"n={n} [{a!r},{b!r}]: sum w_i (x_i/M)^{k} = {got!r}, integral = {ref!r} (M = {M!r}, slack {slack:.3g})")); break
             P = [p * u for p, u in zip(P, us)]
     # Legendre basis on the reference interval: sum w_i P_k(t_i) = (b-a) [k = 0]
-    ts = [(x - xm) / hw for x in xs]
+    if n <= 40:      # exact midpoint and half width (the reference side adds no rounding of its own on intervals a few ulps wide)
+        fm, fh = (fa + fb) / 2, (fb - fa) / 2
+        ts = [float((Fraction(x) - fm) / fh) for x in xs]
+    else:
+        ts = [(x - xm) / hw for x in xs]
     p0 = [1.0] * n; p1 = list(ts)
     for k in range(1, kmax + 1):
         got = math.fsum(w * p for w, p in zip(ws, p1))
@@ -1116,16 +1191,32 @@ def predicates(c, io):
             vals, p = rd_list(0); rows, p = rd_table(p); n = len(rows); k = len(vals); badrow = any(len(r_) != 2 for r_ in rows)
         else:
             rows, p = rd_table(0); n = k = len(rows); badrow = any(len(r_) != 2 for r_ in rows)
-            fn = {"x": lambda x: x, "*": lambda x: x * x, "cos": math.cos, "c": lambda x: 1.0}[c.line.split()[p + 1]]
-            vals = [fn(r_[0]) for r_ in rows]
+            ft = c.line.split()[p + 1:]
+            cv = float.fromhex(ft[1]) if ft[0] == "c" else (float.fromhex(ft[2]) if ft[0] == "/" else 0.0)
+            fn = {"x": lambda x: x, "*": lambda x: x * x, "cos": math.cos, "c": lambda x: cv,
+                  "log": lambda x: math.log(x) if x > 0.0 else (-math.inf if x == 0.0 else math.nan),
+                  "/": lambda x: cv / x if x != 0.0 else math.copysign(math.inf, x) * cv}[ft[0]]
+            vals = [fn(r_[0]) if len(r_) >= 1 else math.nan for r_ in rows]
         if k != n:
             if not io.startswith("EXIT"): out.append((f"{op}:size-guard", f"{k} function values against a rule of {n} rows were accepted: {io[:60]}"))
         elif badrow:
             if not io.startswith("EXIT"): out.append((f"{op}:row-guard", f"a table with a row that is not {{root, weight}} was accepted: {io[:60]}"))
         elif io.startswith("EXIT"): out.append((f"{op}:size-guard", f"matching sizes ({n}) and well-formed rows terminated the process"))
         elif rows is not None:
-            ref = math.fsum(x * r_[1] for x, r_ in zip(vals, rows)); sc = math.fsum(abs(x * r_[1]) for x, r_ in zip(vals, rows))
-            if not (abs(v[0] - ref) <= (n + 4) * 2 * EPS * sc): out.append((f"{op}:weighted-sum", f"returned {v[0]!r}, sum v_i w_i = {ref!r}"))
+            prods = [x * r_[1] for x, r_ in zip(vals, rows)]
+            seq = 0.0
+            for pr in prods: seq += pr
+            if not v or not isinstance(v[0], float): out.append((f"{op}:weighted-sum", f"no value returned: {io[:60]}"))
+            elif any(math.isnan(pr) or math.isinf(pr) for pr in prods) or math.isinf(seq):
+                # IEEE arithmetic on special values: a NaN product makes the sum NaN, infinities of one sign make it that infinity, of both signs NaN
+                if not ((math.isnan(v[0]) and math.isnan(seq)) or v[0] == seq):
+                    out.append((f"{op}:weighted-sum:special-values", f"values {vals} on weights {[r_[1] for r_ in rows]}: returned {v[0]!r}, the sum of the products v_i w_i in IEEE arithmetic is {seq!r}"))
+            else:
+                ref = math.fsum(prods); sc = math.fsum(abs(pr) for pr in prods)
+                if not (abs(v[0] - ref) <= (n + 4) * 2 * EPS * sc): out.append((f"{op}:weighted-sum", f"returned {v[0]!r}, sum v_i w_i = {ref!r}"))
+        elif any(math.isnan(x) for x in vals) and n >= 1:
+            # a NaN sample times a weight is NaN and stays NaN in the sum
+            if not (v and isinstance(v[0], float) and math.isnan(v[0])): out.append(("values:weighted-sum:special-values", f"n={n}: values {vals} contain NaN and the weighted sum is reported as {io[:40]}"))
         elif all(x == 1.0 for x in vals) and n >= 1:
             a, b = float.fromhex(t[2]), float.fromhex(t[3])
             # in halves, so that a length up to 2*DBL_MAX is not formed
